@@ -24,6 +24,9 @@ var jwtbTokenOnce sync.Once
 //go:linkname jwtbTokenAnonymousClient github.com/luikyv/go-oidc/internal/token.anonymousClient
 var jwtbTokenAnonymousClient *goidc.Client
 
+// suites that run worlds on several goroutines hold this while a world with the jwt-bearer grant lives
+var jwtbWorldMu sync.Mutex
+
 // jwtbResetAnonymousClient: as at process start (no request has been served yet).
 func jwtbResetAnonymousClient() {
 	jwtbTokenOnce = sync.Once{}
